@@ -120,6 +120,27 @@ func checkC18() int {
 			add("long-line-first", long+pc.Text)
 		}
 	}
+	// declarations in another order (an exec before the function it runs, processes before
+	// the types they mention): the verdict must be the one of the original order
+	sameAs := map[int]string{} // case index -> text whose verdicts it must share
+	for k, pc := range gcs {
+		if k%2 == 0 {
+			sameAs[len(cases)] = pc.Text
+			add("permuted", mut.Permute(pc.P, r).Text())
+		}
+	}
+	// errors that are neither type errors nor syntax errors of a single token: an exec of a
+	// function that does not exist, a process that refers to one of its own provider names.
+	// Whatever the flags, such a text cannot be run
+	for k, pc := range gcs {
+		if k >= 6 {
+			break
+		}
+		forced[len(cases)] = true
+		add("exec-of-unknown-function", pc.Text+"exec nosuchfunction()\n")
+		forced[len(cases)] = true
+		add("own-name-referenced", pc.Text+"prc[zza, zzb] : rep 1 = wait zza; close self\n")
+	}
 	// expected verdicts
 	jobs := make([]sup.Job, len(cases))
 	for i, cc := range cases {
@@ -134,6 +155,12 @@ func checkC18() int {
 		cc.known = true
 		if forced[i] {
 			cc.parseOK, cc.tcOK = false, false
+		}
+		if orig, ok := sameAs[i]; ok {
+			// a permutation of the declarations of a generated (accepted) program
+			cc.parseOK, cc.tcOK = true, true
+			r1[cc.text] = typing.Accept
+			_ = orig
 		}
 		if k, ok := r1[cc.text]; ok && cc.parseOK {
 			if k == typing.Unknown || (k == typing.Accept) != cc.tcOK {
